@@ -104,6 +104,9 @@ def run(res: C.Result):
     quick = res.tier == "quick"
     nrun, nrot = (50, 40) if quick else (700, 600)
     cases = [gen_run(rng, k) for k in range(nrun)] + [gen_fixrot(rng, k) for k in range(nrot)]
+    for i, c in enumerate(cases):
+        if c["mode"] == "fixrot" and random.Random(res.seed ^ 0x12C000 ^ i).random() < 0.4:
+            c["warm"] = True      # the constraint object was used before on the same coordinates with other masses
     outs = C.run_impl_parallel("c12.py", [{"cases": cases[i::16]} for i in range(16)])
     results = [None] * len(cases)
     for j, o in enumerate(outs):
@@ -111,6 +114,43 @@ def run(res: C.Result):
     coq, meta = [], []
     dist = {"driver": {}, "constraint": {}, "outcomes": {"accepted": 0, "rejected": 0, "failed": 0}, "steps": 0, "fixrot": {"aligned": 0, "general": 0},
             "proposals_compared": 0, "worst_com_drift": 0.0, "worst_L_rel": 0.0}
+    # grand-canonical runs over a frozen framework (FixAtoms) with multi-atom molecules in front of frozen atoms: whatever is inserted, deleted, put back
+    # after a rejection, the constraint keeps pointing at the atoms the user froze, and displacement moves that select them never move them
+    from props import progs
+    r10 = random.Random(res.seed ^ 0x12F)
+    fw = []
+    for k in range(8 if res.tier == "quick" else 80):
+        p = progs.framework_program(r10, k)
+        p["leaves"][0]["labels"] = [x if x >= 0 else 50 + i for i, x in enumerate(p["leaves"][0]["labels"])]      # the displacement move may select the frozen atoms
+        p["steps"] = r10.randint(10, 16)
+        fw.append(p)
+    fouts = C.run_impl_parallel("c03.py", [{"cases": fw[i::8]} for i in range(8)], timeout=3000)
+    fres = [None] * len(fw)
+    for j, o in enumerate(fouts):
+        fres[j::8] = o["results"]
+    dist["framework_gc"] = {"programs": len(fw), "trials": 0, "rejected_deletions": 0}
+    for p, r in zip(fw, fres):
+        if "exception" in r or not r.get("trials"):
+            if "exception" in r:
+                res.fail("framework:exception", f"{r['exception']}: {r.get('message', '')[:200]}", {"input": p, "observed": {x: r.get(x) for x in ("exception", "message")}})
+            continue
+        s0 = r["trials"][0]["pre"]
+        frozen = {s0["vid"][i] for i in s0["fixed"]}
+        pos0 = {v: s0["arrays"]["positions"][i] for i, v in enumerate(s0["vid"]) if v in frozen}
+        for ti, t in enumerate(r["trials"]):
+            dist["framework_gc"]["trials"] += 1
+            sn = t["post"]
+            dist["framework_gc"]["rejected_deletions"] += bool(t.get("outcome") is False and t["name"] == "e")
+            now = {sn["vid"][i] for i in sn["fixed"] if i < len(sn["vid"])}
+            if now != frozen:
+                res.fail("fixatoms:constraint-points-at-other-atoms", f"after trial {ti} ({t['name']}, verdict {t.get('outcome')}) the FixAtoms constraint holds the atoms {sorted(now)} "
+                         f"(identities); the user froze {sorted(frozen)}", {"input": p, "trial": ti, "observed": {"fixed_indices": sn["fixed"], "vid": sn["vid"]}})
+                break
+            moved = [v for i, v in enumerate(sn["vid"]) if v in frozen and sn["arrays"]["positions"][i] != pos0[v]]
+            if moved:
+                res.fail("fixatoms:frozen-atom-moved", f"after trial {ti} ({t['name']}, verdict {t.get('outcome')}) the frozen atoms {moved} are no longer where the user put them",
+                         {"input": p, "trial": ti})
+                break
     distinct = set()
     for k, (c, r) in enumerate(zip(cases, results)):
         if "exception" in r:
